@@ -83,9 +83,14 @@ def _pattern_test(pat, subj):
             return _const(True)
         return ast.BoolOp(op=ast.Or(), values=tests)
     if isinstance(pat, ast.MatchClass):
-        if pat.kwd_attrs or pat.kwd_patterns or len(pat.patterns) > 1:
-            raise _Unsupported("class pattern with sub-patterns")
+        if len(pat.patterns) > 1:
+            raise _Unsupported("class pattern with several positional sub-patterns")
         parts = [ast.Call(func=_name("isinstance"), args=[copy.deepcopy(subj), pat.cls], keywords=[])]
+        # Cls(attr=pattern): the attribute of the subject against the pattern
+        for attr, sub in zip(pat.kwd_attrs, pat.kwd_patterns):
+            t = _pattern_test(sub, ast.Attribute(value=copy.deepcopy(subj), attr=attr, ctx=ast.Load()))
+            if not (isinstance(t, ast.Constant) and t.value is True):
+                parts.append(t)
         if pat.patterns:
             # str(x) / bytes(x) / int(x): the builtin classes match the subject itself as their one positional sub-pattern
             if not (isinstance(pat.cls, ast.Name) and pat.cls.id in ("str", "bytes", "int", "float", "bool", "list", "tuple", "dict", "set", "frozenset", "bytearray")):
